@@ -219,12 +219,19 @@ class ExplorerScriptSsbDecompiler:
             # Jump as part of a control structure
             self.write_stmnt(f"jump @label_{label_id};")
 
-    def source_map_add_opcode(self, op_offset: int) -> None:
-        """Has to be called BEFORE writing the opcode."""
+    def source_map_add_opcode(self, op_offset: int, on_current_line_after: int | None = None) -> None:
+        """
+        Has to be called BEFORE writing the opcode.
+        By default the statement is expected to start in a new line after indent. If it is instead appended to the
+        current line (like `} elseif (...)`), on_current_line_after is the number of separator characters that are
+        written between the current end of the line and the statement.
+        """
         assert self.smb is not None
-        # TODO: Assumes that all statements start in a new line after indent.
-        #       Might need this more flexible.
-        self.smb.add_opcode(op_offset, self._line_number, self.indent * NUMBER_OF_SPACES_PER_INDENT)
+        if on_current_line_after is None:
+            self.smb.add_opcode(op_offset, self._line_number, self.indent * NUMBER_OF_SPACES_PER_INDENT)
+        else:
+            current_line = self._output[self._output.rfind("\n") + 1 :]
+            self.smb.add_opcode(op_offset, self._line_number - 1, len(current_line) + on_current_line_after)
 
     def source_map_add_position_mark(self, length: int, param: SsbOpParamPositionMarker) -> None:
         assert self.smb is not None
